@@ -33,7 +33,7 @@ CONSTANTS
   MaxLevel,   \* bound on behaviour length (safety net)
   Shape,      \* "" or "chain": restricts the trees that are built (checked on the successor state)
   MaxEdits,   \* in-place edits of the built model (0: none); every state after an edit is a case too
-  EditKinds,  \* subset of {"card","addchild","rmkid","replkid","abs","attrval","rmctc","ctcop","rename"}
+  EditKinds,  \* subset of {"card","addchild","rmkid","replkid","move","import","abs","attrval","rmctc","ctcop","rename"}
   Walks,      \* 0: exhaustive exploration; n > 0: n seeded random walks ("random larger ones")
   Seed        \* seed of the walks (VERIF_SEED)
 
@@ -114,7 +114,25 @@ EditPhase == MaxEdits > 0 /\ NF >= 2 /\ (stage < 6 \/ pos < MaxEdits)
 EnterEdit == stage' = 6 /\ pos' = (IF stage = 6 THEN pos + 1 ELSE 1)
 Ref(j)    == [o |-> model.rels[j].owner, ri |-> RelPos(model, j)]
 
+RECURSIVE SubtreeOf(_)
+SubtreeOf(f) == {f} \cup UNION {SubtreeOf(c) : c \in ChildSet(model, f)}
+\* what import_model is offered: two constraints, the first possibly one the model already has, the second possibly the first again
+ImportFirst  == {model.ctcs[i].ast : i \in DOMAIN model.ctcs} \cup {Var(model.root)}
+ImportCands  == {<<t1, t2>> \in ImportFirst \X ({Var(n) : n \in Names(model)} \cup ImportFirst) : TRUE}
+ImportSeq    == SetToSeq(ImportCands)
+
 EditChoices ==
+  (IF "move" \in EditKinds
+   THEN UNION {{[k |-> "move", j |-> j, i |-> i, x |-> "", lo |-> j2, hi |-> 0] :
+                   i \in {i \in DOMAIN model.rels[j].kids :
+                            /\ NKids(model.rels[j]) >= 2
+                            /\ model.rels[j].lo <= NKids(model.rels[j]) - 1
+                            /\ (model.rels[j].hi = Star \/ model.rels[j].hi <= NKids(model.rels[j]) - 1)},
+                   j2 \in {j2 \in DOMAIN model.rels : j2 # j}} : j \in DOMAIN model.rels}
+   ELSE {})
+  \cup (IF "import" \in EditKinds
+        THEN {[k |-> "import", j |-> 0, i |-> i, x |-> "", lo |-> 0, hi |-> 0] : i \in DOMAIN ImportSeq} ELSE {})
+  \cup
   (IF "card" \in EditKinds
    THEN UNION {{[k |-> "card", j |-> j, i |-> 0, x |-> "", lo |-> c[1], hi |-> c[2]] :
                    c \in CardChoices(NKids(model.rels[j])) \ {<<model.rels[j].lo, model.rels[j].hi>>}} : j \in DOMAIN model.rels}
@@ -163,6 +181,15 @@ EditBy(d) ==
        [] d.k = "rmkid" ->
             /\ model' = RemoveKidF(model, d.j, d.i)
             /\ hist'  = Append(hist, [a |-> "EditRemoveKid", o |-> Ref(d.j).o, ri |-> Ref(d.j).ri, n |-> model.rels[d.j].kids[d.i]])
+       [] d.k = "move" ->
+            /\ model.rels[d.lo].owner \notin SubtreeOf(model.rels[d.j].kids[d.i])
+            /\ model' = MoveKidF(model, d.j, d.i, d.lo)
+            /\ hist'  = Append(hist, [a |-> "EditMove", o |-> Ref(d.j).o, ri |-> Ref(d.j).ri, n |-> model.rels[d.j].kids[d.i],
+                                      o2 |-> Ref(d.lo).o, ri2 |-> Ref(d.lo).ri])
+       [] d.k = "import" ->
+            LET new == <<[name |-> "i1", ast |-> ImportSeq[d.i][1]], [name |-> "i2", ast |-> ImportSeq[d.i][2]]>>
+            IN  /\ model' = ImportF(model, new)
+                /\ hist'  = Append(hist, [a |-> "EditImport", ctcs |-> new])
        [] d.k = "replkid" ->
             /\ model' = ReplaceKidF(model, d.j, d.i)
             /\ hist'  = Append(hist, [a |-> "EditReplaceKid", o |-> Ref(d.j).o, ri |-> Ref(d.j).ri, n |-> model.rels[d.j].kids[d.i]])
@@ -269,6 +296,16 @@ EmitSim == Emit
 ---------------------------------------------------------------------------
 (* Design-level invariants and the oracle lemmas (DESIGN 3.4).  A violated *)
 (* lemma is a specification bug; the checks stop with exit 2.              *)
+
+\* action properties of the design (PROPERTY in the generator runs): construction only ever adds - features,
+\* relations and constraints of a state are still there in the next one - and hist grows by exactly one call
+BuildMonotone == [][stage' < 6 => /\ Names(model) \subseteq Names(model')
+                                  /\ IsPrefix(model.rels, model'.rels)
+                                  /\ Len(model.ctcs) <= Len(model'.ctcs)
+                                  /\ model'.root = model.root]_vars
+HistGrows     == [][Len(hist') = Len(hist) + 1 /\ SubSeq(hist', 1, Len(hist)) = hist]_vars
+\* an edit history keeps the model it started from
+BaseKept      == [][stage = 6 => base' = base]_vars
 
 InvWellFormed == WellFormedTree(model) /\ WfCards(model)
 InvHistReplay == Len(hist) >= 1        \* hist is total
